@@ -52,3 +52,14 @@ claim('C14',
       'placement sequences (insert_after on an appended category; filtering an auto-extended database).',
       'Trusts CrossHair/z3; reference model in props/C14.py written from the docstrings; bounded history length and name universe.',
       'DESIGN.md section 4 C14')
+claim('C15',
+      'Symbolic execution of the real read_latex_file / read_input_file / \\input handling against a modelled file system: '
+      'os.path.realpath is an uninterpreted function whose answer for the candidate that exists is a symbolic string '
+      '(pinned shape, free characters ranging over all Unicode), existence is given per candidate, open() records the resolved '
+      'target; assertion: nothing outside realpath(dir) is ever opened or returned, and names resolving inside are read. '
+      'Right level: the file system is environment, so the layout becomes the symbolic input; the failing layouts (a sibling '
+      'directory whose name extends the directory name, <dir>.tex next to the directory, a completed name that is a symlink) '
+      'are single points in that space. The model is validated on a real temporary directory tree on every run.',
+      'Trusts the environment model in props/C15.py (realpath contract; exists/isfile follow links; no races); CrossHair/z3; '
+      'bounded shapes of resolved targets.',
+      'DESIGN.md section 4 C15')
